@@ -282,7 +282,7 @@ func (vc *VC) computeFrame(env *cenv, k *FuncContract) {
 // frameGoal: variable v in state st agrees with the entry state outside the
 // modifies clause (at every pre-allocated key). "" = nothing to show.
 func (vc *VC) frameGoal(v string, st *State) string {
-	if strings.HasPrefix(v, "$") {
+	if strings.HasPrefix(v, "$") || strings.HasPrefix(v, "W!") {
 		return ""
 	}
 	cur := vc.look(st, v)
